@@ -227,6 +227,33 @@ CHECKS["C20"] = (
     "DESIGN.md section 3, C20",
 )
 
+CHECKS["C07"] = (
+    "ENUM",
+    "model_checking",
+    "bounded exhaustive enumeration of constraint texts over a syntax alphabet through parse -> unparse -> parse -> unparse, with differential evaluation on all closed trees",
+    "About 600 constraint texts: one core-syntax formula per schema of the typed universe, every sugared form of the C08 generator, free "
+    "nonterminals (incl. <start>) in every argument position, XPath expressions, const declarations, bound names that collide with "
+    "generated names, one constraint per SMT operator nest and per string literal class (quotes, backslashes, newline, tab, Latin-1, BMP), "
+    "match expressions over a grammar whose terminals need escaping, numeric quantifiers and predicates with string/int arguments. For every "
+    "accepted text: the unparsed text must parse, the re-parsed constraint must equal the first, the second unparse must reproduce the text, "
+    "and both constraints must evaluate identically on every closed tree of the grammar's universe.",
+    "Texts the first parse rejects are outside the domain; classes rejected completely are listed in the evidence as coverage gaps.",
+    "DESIGN.md section 3, C07",
+)
+
+CHECKS["C08"] = (
+    "ENUM",
+    "model_checking",
+    "bounded exhaustive enumeration of (sugared text, hand-expanded core formula) pairs x all closed trees; the core side judged by the reference semantics",
+    "Sixty pairs cover every documented sugar rule and combinations: omitted 'in start', omitted variable names, free nonterminals, XPath "
+    "child axis over single / several candidate alternatives in universal and existential context, indices 1..12 on a twelve-child rule, "
+    "descendant axis, prefix/infix SMT notation with precedence, negative literals, implies/iff/xor with precedence. The core translation "
+    "is written from islaspec.rst as an own AST; on every closed tree of four grammars evaluate(sugar) must equal the reference semantics "
+    "of the core form, and parse_isla must accept the sugar.",
+    "Only contexts the specification decides are paired (e.g. the descendant axis below an existentially bound variable is not).",
+    "DESIGN.md section 3, C08",
+)
+
 NOT_YET = "check not built yet in this round (planned in DESIGN.md section 3)"
 
 
